@@ -13,6 +13,7 @@ import (
 	"time"
 
 	inject "github.com/openebs/jiva/error-inject"
+	"github.com/openebs/jiva/rpc"
 	jsync "github.com/openebs/jiva/sync"
 	"github.com/openebs/jiva/types"
 )
@@ -821,6 +822,7 @@ func (x *SExec) doWrite(i int, op SOp) *Fail {
 	}
 	W := x.writers()
 	ro := x.readOnly()
+	defer longDeadlineFor(op)()
 	modeBefore := append([]types.Mode{}, x.Mode...)
 	before := make([]int, len(st.Nodes))
 	for j, n := range st.Nodes {
@@ -1023,6 +1025,7 @@ func (x *SExec) doRead(i int, op SOp) *Fail {
 	if reps <= 0 {
 		reps = 1
 	}
+	defer longDeadlineFor(op)()
 	for rep := 0; rep < reps; rep++ {
 		var rw []int
 		for j, m := range x.Mode {
@@ -2960,4 +2963,16 @@ func keysOf(m map[int]bool) []int {
 	}
 	sort.Ints(k)
 	return k
+}
+
+// longDeadlineFor: an op with a DROPWAIT outcome runs with r/w deadlines of 4 s;
+// the returned function restores the usual ones.
+func longDeadlineFor(op SOp) func() {
+	for _, o := range op.Out {
+		if o == DROPWAIT {
+			rpc.VerifSetTimeouts(4*time.Second, 4*time.Second, 4*time.Second, 4*time.Second, 0)
+			return func() { rpc.VerifSetTimeouts(sRW, sRW, sRW, sRW, 0) }
+		}
+	}
+	return func() {}
 }
